@@ -8,9 +8,10 @@ import (
 )
 
 // C02: Point.Within for every query point, and the aggregate receivers.
-//   {"kind":"poly","polys":[[ring,...],...],"n":N}     all lattice points 0..N (coordinates are halved: half-integers)
-//   {"kind":"polyq","polys":...,"pts":[...],"scale":s}  explicit query points; coordinates multiplied by 2^s (exact)
-//   {"kind":"agg","recv":..,"vs":[...],"polys":...}
+//
+//	{"kind":"poly","polys":[[ring,...],...],"n":N}     all lattice points 0..N (coordinates are halved: half-integers)
+//	{"kind":"polyq","polys":...,"pts":[...],"scale":s}  explicit query points; coordinates multiplied by 2^s (exact)
+//	{"kind":"agg","recv":..,"vs":[...],"polys":...}
 func init() {
 	families["c02"] = &Family{Run: runC02, Random: randomC02}
 }
@@ -49,6 +50,46 @@ func runC02(c map[string]interface{}) []Event {
 			}
 		})
 		e["pts"], e["res"] = pts, res
+		// a polygon that is one axis-parallel rectangle is also asked as a *Bounds: the same answers (OnEdge on its boundary)
+		if p, ok := pg.(geom.Polygon); ok && len(p) == 1 {
+			r := p[0]
+			if len(r) == 5 && r[0] == r[4] {
+				r = r[:4]
+			}
+			if len(r) == 4 {
+				b := geom.NewBounds()
+				for _, v := range r {
+					b.Extend(geom.NewBoundsPoint(v))
+				}
+				onBox := true
+				for _, v := range r {
+					if (v.X != b.Min.X && v.X != b.Max.X) || (v.Y != b.Min.Y && v.Y != b.Max.Y) {
+						onBox = false
+					}
+				}
+				corners := map[geom.Point]bool{}
+				for _, v := range r {
+					corners[v] = true
+				}
+				for i := range r { // every edge (the closing one too) runs along an axis: a rectangle, not a bow-tie
+					a, c := r[i], r[(i+1)%4]
+					if (a.X == c.X) == (a.Y == c.Y) {
+						onBox = false
+					}
+				}
+				if onBox && len(corners) == 4 && b.Min.X < b.Max.X && b.Min.Y < b.Max.Y {
+					i := 0
+					for x := 0; x <= n; x++ {
+						for y := 0; y <= n; y++ {
+							if i < len(res) && int(geom.Point{X: half(x), Y: half(y)}.Within(b)) != res[i].(int) {
+								e["out"] = "the same rectangle as *Bounds disagrees"
+							}
+							i++
+						}
+					}
+				}
+			}
+		}
 		// the same answers must come back when the polygon is given as a one-member MultiPolygon
 		if p, ok := pg.(geom.Polygon); ok {
 			i := 0
